@@ -39,6 +39,7 @@ import (
 // ---------------------------------------------------------------- configuration
 
 type verifCfg struct {
+	aliasDirs   bool // --work-dir and --output-dir are the same directory spelled differently
 	gzip        bool
 	workDir     bool  // work-dir differs from output-dir
 	skipEmpty   bool  // --skip-empty-files
@@ -139,6 +140,14 @@ var verifErrClosed = errors.New("verif: file already closed")
 type verifFileInfo struct {
 	name string
 	size int64
+	ino  *verifInode // identity, for os.SameFile
+}
+
+// os.SameFile over the disk model: two names of one inode (hard links, or one path spelled twice).
+func verifSameFile(a, b os.FileInfo) bool {
+	x, ok1 := a.(verifFileInfo)
+	y, ok2 := b.(verifFileInfo)
+	return ok1 && ok2 && x.ino != nil && x.ino == y.ino
 }
 
 func (fi verifFileInfo) Name() string       { return fi.name }
@@ -272,7 +281,7 @@ func verifFileStat(f *os.File) (os.FileInfo, error) {
 	if h == nil {
 		return nil, verifErrClosed
 	}
-	return verifFileInfo{name: h.path, size: int64(len(h.ino.data))}, nil
+	return verifFileInfo{name: h.path, size: int64(len(h.ino.data)), ino: h.ino}, nil
 }
 
 func verifFileName(f *os.File) string {
@@ -292,7 +301,7 @@ func verifOsStat(name string) (os.FileInfo, error) {
 	if ino == nil {
 		return nil, &os.PathError{Op: "stat", Path: name, Err: syscall.ENOENT}
 	}
-	return verifFileInfo{name: name, size: int64(len(ino.data))}, nil
+	return verifFileInfo{name: name, size: int64(len(ino.data)), ino: ino}, nil
 }
 
 func verifMkdirAll(path string, perm os.FileMode) error {
@@ -523,6 +532,7 @@ func verifInstallStubs() {
 	verifrt.Stub("(*os.File).Stat", verifFileStat)
 	verifrt.Stub("(*os.File).Name", verifFileName)
 	verifrt.Stub("os.Stat", verifOsStat)
+	verifrt.Stub("os.SameFile", verifSameFile)
 	verifrt.Stub("os.MkdirAll", verifMkdirAll)
 	verifrt.Stub("os.Link", verifLink)
 	verifrt.Stub("os.Remove", verifRemove)
@@ -641,6 +651,11 @@ func verifNewRun(cfg verifCfg) *verifRun {
 	o.MaxInFlight = cfg.maxInFlight
 	o.OutputDir = r.out
 	o.WorkDir = r.work
+	if cfg.aliasDirs {
+		// ONE directory configured under two spellings: the options differ as strings (so the
+		// logger runs in work-dir mode) while every joined path names the same file
+		o.WorkDir = r.out + "/"
+	}
 	o.DatetimeFormat = "%H"
 	o.FilenameFormat = "<TOPIC><REV>.<DATETIME>.log"
 	if cfg.subDir {
